@@ -136,7 +136,11 @@ func Listen(ctx context.Context, upstreamAddr, endpoint, name string, o ListenOp
 	if u.MaxReconnectBackoff == 0 {
 		u.MaxReconnectBackoff = 200 * time.Millisecond
 	}
-	ln, err := u.Listen(ctx, endpoint)
+	// as the agent does: the context passed to Listen bounds the initial
+	// connect only and is released as soon as Listen returns
+	cctx, cancel := context.WithCancel(ctx)
+	ln, err := u.Listen(cctx, endpoint)
+	cancel()
 	if err != nil {
 		return nil, err
 	}
